@@ -1,7 +1,7 @@
 import H2V.Lemmas.ConnNoPanicPHist
 /-
   C08 (no panic) — the client response path, part 1: the shape of a request stream's `pending_recv`
-  (`respShape`, `respHead`, `Good`), the per-stream frame relation `RS` (receive queue untouched, no new
+  (`respShape`, `respHead`, `RGood`), the per-stream frame relation `RS` (receive queue untouched, no new
   "receive streaming" state, handle count not lowered), its lift `RP X s s'` to the entries that have a
   handle (`ref_count > 0`) and are not in the exception list `X`, the primitives, and the peeling tactic
   `rp_auto` (same design as `lt_auto` / `af_auto`: the head function `f` is peeled with the lemma `f_rp`).
@@ -48,7 +48,7 @@ theorem respHead_append_headers {q : List REvent} (a : Bytes) (f : Fields) (h : 
   | cons e r ih => cases e <;> first | exact ih h | rfl | cases h
 
 /-- what the invariant says about one stream -/
-structure Good (x : Stream) : Prop where
+structure RGood (x : Stream) : Prop where
   shape : respShape x.pendingRecv = true
   head : x.state.isRecvStreaming = true → respHead x.pendingRecv = true
 
@@ -63,7 +63,7 @@ structure RS (a b : Stream) : Prop where
 theorem RS.refl (a : Stream) : RS a a := ⟨rfl, rfl, Nat.le_refl _, fun h => h⟩
 theorem RS.trans {a b c : Stream} (h1 : RS a b) (h2 : RS b c) : RS a c :=
   ⟨h2.key.trans h1.key, h2.q.trans h1.q, Nat.le_trans h1.ref h2.ref, fun h => h1.str (h2.str h)⟩
-theorem RS.good {a b : Stream} (h : RS a b) (g : Good a) : Good b :=
+theorem RS.good {a b : Stream} (h : RS a b) (g : RGood a) : RGood b :=
   ⟨by rw [h.q]; exact g.shape, fun hs => by rw [h.q]; exact g.head (h.str hs)⟩
 
 /-- entries with a handle, outside `X`, are framed -/
